@@ -25,6 +25,13 @@ class PyDict(Value):
         self.d = dict(d)
 
 
+class PyDictC(Value):
+    """exec-time dict literal with a fixed list of (key, value) pairs"""
+    def __init__(self, pairs):
+        self.shape = None
+        self.pairs = list(pairs)
+
+
 class _BoundExt(Value):
     """python-implemented method of a declared (stdlib) class, bound to obj"""
     def __init__(self, fn, obj):
@@ -409,6 +416,8 @@ class Executor(EvalMixin, StmtMixin):
             self.root.call_log.append(qn)
             return ext(self, args, kwargs)
         callee = self.world.contracts.get(qn)
+        if self.contract is not None and qn in self.contract.callee_contracts:
+            callee = self.contract.callee_contracts[qn]
         inline = (self.contract is not None and qn in self.contract.inline) or qn in self.world.inline \
             or fn.env is not None
         if callee is not None and not (inline and callee is not self.contract) :
@@ -578,6 +587,61 @@ class Executor(EvalMixin, StmtMixin):
             c = self.truthy(self.ev(node.args[0]))
             a, b = self.join2(self.ev(node.args[1]), self.ev(node.args[2]))
             return ite(c, a, b)
+        if fname == 'only_key_changed':
+            # only_key_changed(d, k1, ...): the dict/set d differs from its old
+            # value at most at the given keys (quantifier-free: array stores)
+            d = self.ev(node.args[0])
+            if isinstance(d, SOpt):
+                d = d.val
+            keys = [self.ev(a) for a in node.args[1:]]
+            conj = []
+            for f, shape in container_fields(d.shape.cls).items():
+                if not isinstance(shape, MapS):
+                    continue
+                new = self.path.read_field(d, f)
+                cur = self.path.store
+                self.path.store = dict(self.old_store)
+                try:
+                    old = self.path.read_field(d, f)
+                finally:
+                    self.path.store = cur
+                upd = old
+                for k in keys:
+                    kk = coerce(self.path, k, shape.key)
+                    upd = shape.store(upd, kk, shape.select(new, kk))
+                conj.append(self.eq(new, upd))
+            return SV(BoolS, z3.And(conj))
+        if fname == 'map_only_changed':
+            new, old = self.ev(node.args[0]), self.ev(node.args[1])
+            upd = old
+            for a in node.args[2:]:
+                kk = coerce(self.path, self.ev(a), new.shape.key)
+                upd = new.shape.store(upd, kk, new.shape.select(new, kk))
+            return SV(BoolS, self.eq(new, upd))
+        if fname == 'only_changed_at':
+            # only_changed_at('Cls.f', o1, ...): field f differs from its old
+            # value at most at the given objects
+            key = node.args[0].value
+            cls, field = key.rsplit('.', 1)
+            owner, shape = self.world.field_owner(cls, field)
+            if owner is None:
+                raise ContractError('only_changed_at(%r): unknown field' % key)
+            k = owner + '.' + field
+            new = self.path.field_arrays(owner, field, shape)
+            old = self.old_store.get(k, self.path.store0.get(k)) or new
+            objs = []
+            for a in node.args[1:]:
+                o = self.ev(a)
+                if isinstance(o, SOpt):
+                    o = o.val
+                objs.append(o.id)
+            conj = []
+            for a, b in zip(new, old):
+                upd = b
+                for o in objs:
+                    upd = z3.Store(upd, o, z3.Select(a, o))
+                conj.append(a == upd)
+            return SV(BoolS, z3.And(conj))
         if fname == 'truthy':
             return SV(BoolS, self.truthy(self.ev(node.args[0])))
         if fname == 'isnone':
